@@ -178,6 +178,10 @@ def main(tier, seed):
         chk.violation("build", "correspondence broken: %s\n%s\n%s" % (what, st.get("harness_log", ""), st.get("model_log", "")), nofail=True)
         chk.cov.update({"evaluations": 0, "distinct_nontrivial": 0})
         return chk.finish()
+    # the keys that really reach the poller: histories of register / reregister with freshly drawn sub-tokens (harness genlife,
+    # coq/theories/GenLife.v): the kernel's table must carry, for every registered Generic, the key of the token it last drew
+    import p_c16
+    p_c16.genlife(chk, st, prop="C20")
     impl, model, m2, ilog, mlog = run_all(chk, cases)
     diffs = [(c, a, b) for c, a, b in zip(cases, impl, model) if a != b]
     bad = oracle(cases, impl, m2)
@@ -214,6 +218,9 @@ def main(tier, seed):
 
 
 def replay(path):
+    if "genlife case:" in open(path).read():
+        import p_c16
+        return p_c16.replay(path)
     cases = [l.strip() for l in open(path) if l.strip() and l.split()[0] in ("pack", "unpack", "factory", "incsub", "incver", "forget", "same", "new", "bitor", "bitor_assign")]
     vlib.build_harness()
     vlib.build_model()
